@@ -1035,6 +1035,7 @@ func c13Lab(c *lab.Ctx) {
 		"upstream = every flag combination x 6 upstream-certificate kinds x server_name set/empty; plain = inspector x flags x plaintext/TLS client. " +
 		"distinct = (family, ClientHello class, model rule and index, flags, peer kind, negotiated version, provider kind, outcome). " +
 		"odd batches enable TLS 1.3 in MOSN's TLS stack (GODEBUG=tls13=1)")
+	c.Assume("an SNI with a trailing dot is not generated (crypto/tls clients strip it; the statement does not speak of it); ALPN identifiers other than lower-case h2 / http/1.1 / spdy/3 are not generated")
 	c.Assume("SNI host names compare case-insensitively (RFC 6066); a case is judged for selection only if all readings of 'wildcard label' (one label / any depth) and of 'certificate names' (CN always / only without SAN / never) select the same context")
 	c.Assume("judged for client authentication: only verify_client AND require_client_cert; every other mode is recorded in the counters, not judged")
 	c.Assume("upstream: rejection is required for self-signed / other-CA / expired chains without insecure_skip; acceptance is required for a chain to the configured CA whose name equals server_name; insecure_skip with a bad chain and a name mismatch are recorded, not judged")
